@@ -77,6 +77,24 @@ pub fn op(toks: &[&str], out: &mut impl Write) {
             writeln!(out, "flip: {} {:?}", bytes.len(), pos).unwrap();
             print_read(&bytes, out);
         }
+        // flipend <k> <q1> .. <qk> | <frame spec>   (bit positions counted back from the last bit of the frame)
+        "flipend" => {
+            let (a, b) = split_bar(&toks[1..]);
+            let f = spec::parse_frame(b);
+            let mut bytes = f.write().to_vec();
+            let nbits = bytes.len() * 8;
+            let mut pos = Vec::new();
+            for t in a[1..].iter() {
+                let p = nbits - 1 - (t.parse::<usize>().unwrap() % nbits);
+                if !pos.contains(&p) {
+                    pos.push(p);
+                    bytes[p / 8] ^= 1 << (p % 8);
+                }
+            }
+            pos.sort();
+            writeln!(out, "flip: {} {:?}", bytes.len(), pos).unwrap();
+            print_read(&bytes, out);
+        }
         // mutfix <kind> <args..> | <frame spec> : mutate the body (frame minus CRC), re-CRC, read
         "mutfix" => {
             let (a, b) = split_bar(&toks[1..]);
